@@ -12,19 +12,26 @@ LEVEL_ATTRS = ["_defaults", "_collection", "_system", "_user", "_project", "_env
                "_overrides", "_modifications", "_deletions"]
 
 
-def dict_ids(x, acc):
+def obj_ids(x, dicts, lists):
+    """ids of the dict objects and of the list objects (mutable leaves) below x;
+    descends into lists and tuples too"""
     if isinstance(x, dict):
-        acc.add(id(x))
+        dicts.add(id(x))
         for v in x.values():
-            dict_ids(v, acc)
-    return acc
+            obj_ids(v, dicts, lists)
+    elif isinstance(x, (list, tuple)):
+        if isinstance(x, list):
+            lists.add(id(x))
+        for v in x:
+            obj_ids(v, dicts, lists)
+    return dicts, lists
 
 
-def level_nodes(cfg):
-    acc = set()
-    for a in LEVEL_ATTRS + ["_config"]:
-        dict_ids(getattr(cfg, a), acc)
-    return acc
+def level_nodes(cfg, attrs=None):
+    dicts, lists = set(), set()
+    for a in (attrs or LEVEL_ATTRS + ["_config"]):
+        obj_ids(getattr(cfg, a), dicts, lists)
+    return dicts, lists
 
 
 # --------------------------------------------------------------------------
@@ -245,6 +252,26 @@ class C11(Prop):
             extra = rng.choice(["zz", "new", "extra"])
             if rng.random() < 0.7:
                 into[extra] = rng.choice([1, "v", {"data": "ohai"}])
+        def list_leaves():
+            return [(p[:-1], p[-1]) for p, sec in cc.schema_paths(g.sch) if not sec and g.node(p[:-1])[p[-1]] == "l"]
+        # in-place edits of list leaves (not a config operation: a probe for shared leaf objects)
+        for _ in range(rng.choice([0, 0, 1, 2])):
+            ll = list_leaves()
+            if ll:
+                kp, k = rng.choice(ll)
+                pre.insert(rng.randint(0, len(pre)), ["leafappend", rng.choice(["item", "attr"]), list(kp), k, "q"])
+        if rng.random() < 0.3:
+            case["fs"].append(["projB", rng.choice(cc.SUFFIXES), {"data": g.inst(kinds="nbisl")}])
+        seen_files, uniq = set(), []
+        for e in case["fs"]:
+            if (e[0], e[1]) not in seen_files:
+                seen_files.add((e[0], e[1]))
+                uniq.append(e)
+        case["fs"] = uniq
+        # untracked local edits (raw dict / list leaf) live in the cache only: re-merge before cloning,
+        # "the moment of cloning" is about what the levels hold
+        if any((o[2] if o[0] == "via" else o)[0] in ("rawset", "leafappend") for o in pre):
+            pre.append(["merge"])
         post = []
         handles = {False: dict(g.handles), True: {}}
         for _ in range(rng.randint(0, 10)):
@@ -252,6 +279,22 @@ class C11(Prop):
             g.handles = handles[side]
             r = rng.random()
             secs = [p for p in g.sections() if p]
+            r2 = rng.random()
+            if r2 < 0.12:
+                op = rng.choice([["load_project"], ["load_runtime"], ["merge"],
+                                 ["set_project_location", rng.choice(["projB", "projA", None])],
+                                 ["load_system"], ["load_user"]])
+                handles[side] = g.handles
+                post.append([side, op])
+                continue
+            if r2 < 0.16:
+                handles[side] = {}
+                post.append([side, ["clone", None]])
+                continue
+            if r2 < 0.24 and list_leaves():
+                kp, k = rng.choice(list_leaves())
+                post.append([side, ["leafappend", rng.choice(["item", "attr"]), list(kp), k, "q"]])
+                continue
             if r < 0.1 and secs and len(g.handles) < 3:
                 p = rng.choice(secs)
                 h = g.next_h
@@ -267,7 +310,8 @@ class C11(Prop):
                 op = g.path_op()
             handles[side] = g.handles
             post.append([side, op])
-        return {"fs": case["fs"], "init": case["init"], "pre": pre, "into": into, "post": post}
+        return {"fs": case["fs"], "init": case["init"], "pre": pre, "into": into, "post": post,
+                "into_const": into is not None and rng.random() < 0.5}
 
     def generate(self, rng, tier, n):
         for i in range(n):
@@ -324,7 +368,8 @@ class C11(Prop):
                 if case["into"] is None:
                     cl = cfg.clone()
                 else:
-                    cl = cfg.clone(into=cc.make_class(s.supply("into.global_defaults", case["into"])))
+                    cl = cfg.clone(into=cc.make_class(s.supply("into.global_defaults", case["into"]),
+                                                      constant=bool(case.get("into_const"))))
             except Exception as e:
                 return {"cloneerr": type(e).__name__}
             why = []
@@ -335,21 +380,31 @@ class C11(Prop):
                     if label != "written" and obj != snap:
                         ok = False
                         why.append("source %s changed: %r -> %r" % (label, snap, obj))
-                shared = level_nodes(cfg) & level_nodes(cl)
-                if shared:
+                a, b = objs[False], objs[True]
+                (da, la), (db, lb) = level_nodes(a), level_nodes(b)
+                if da & db:
                     ok = False
-                    why.append("original and clone share %d dict object(s)" % len(shared))
+                    why.append("original and clone share %d dict object(s)" % len(da & db))
+                if la & lb:
+                    ok = False
+                    why.append("original and clone share %d list object(s) (leaves not copied)" % len(la & lb))
+                for who, x in (("original", a), ("clone", b)):
+                    _, cache_lists = level_nodes(x, ["_config"])
+                    _, level_lists = level_nodes(x, LEVEL_ATTRS)
+                    if cache_lists & level_lists:
+                        ok = False
+                        why.append("%s: the merged cache holds a level's own list object (leaf not copied)" % who)
                 return ok
+            objs = {False: cfg, True: cl}
             obs = {"lo": [cc.level_view(getattr(cfg, a)) for a in LEVEL_ATTRS],
                    "lc": [cc.level_view(getattr(cl, a)) for a in LEVEL_ATTRS],
                    "vo": cc.view_of(cfg), "vc": cc.view_of(cl), "intact": intact(), "post": []}
             handles = {False: s.handles, True: {}}
-            objs = {False: cfg, True: cl}
             for side, op in case["post"]:
                 s.handles = handles[side]
-                _, out = s.try_op(objs[side], op, rng)
+                objs[side], out = s.try_op(objs[side], op, rng)      # a second clone replaces that side
                 handles[side] = s.handles
-                obs["post"].append({"out": out, "vo": cc.view_of(cfg), "vc": cc.view_of(cl),
+                obs["post"].append({"out": out, "vo": cc.view_of(objs[False]), "vc": cc.view_of(objs[True]),
                                     "intact": intact()})
                 if cc.abnormal(out):
                     break
@@ -404,25 +459,45 @@ class C11(Prop):
     def finding_of(self, case, obs):
         if case.get("kind") == "heap" or "vo" not in obs:
             return None
-        # F-C11c: the original was lazy and never loaded a base conf level whose file holds data
-        if case["init"].get("lazy"):
+        # known findings concern what the clone READS; sources must be intact and nothing shared throughout
+        if not obs["intact"] or not all(p["intact"] for p in obs["post"]):
+            return None
+        # ... and later operations must stay independent (the untouched side unchanged)
+        vo, vc = obs["vo"], obs["vc"]
+        for (side, _), p in zip(case["post"], obs["post"]):
+            if (side and p["vo"] != vo) or (not side and p["vc"] != vc):
+                return None
+            vo, vc = p["vo"], p["vc"]
+        from .c06 import overlay
+        differ = [i for i in range(len(LEVEL_ATTRS)) if obs["lo"][i] != obs["lc"][i]
+                  and (obs["lo"][i] or obs["lc"][i])]
+        d_o = gt.unjson(obs["lo"][0]) or {}
+        g = gt.unjson(case["into"]) if case["into"] is not None else None
+        into_overrides = False
+        if 0 in differ and g is not None:
+            d_c = gt.unjson(obs["lc"][0])
+            if d_c == overlay(g, d_o):
+                differ.remove(0)              # the union, ours winning: as specified
+            elif d_c == overlay(d_o, g):
+                differ.remove(0)              # the subclass' defaults on top: F-C11b
+                into_overrides = True
+        # F-C11c: the original was lazy and never loaded a base conf level whose file holds data:
+        # only the system/user levels differ
+        lazy_loaded = False
+        if case["init"].get("lazy") and differ and set(differ) <= {2, 3}:
             names = [o[0] for o in case["pre"]]
             for loc, opname, idx in (("sys", "load_system", 2), ("usr", "load_user", 3)):
                 has_data = any(l == loc and e.get("data") for l, _, e in case["fs"])
-                if has_data and opname not in names and obs["lo"][idx] != obs["lc"][idx]:
-                    return "F-C11c"
-        # F-C11b: the subclass' global defaults override a default the original defines
-        if case["into"] is not None and obs["intact"] and all(p["intact"] for p in obs["post"]):
-            d_o, d_c, g = gt.unjson(obs["lo"][0]) or {}, gt.unjson(obs["lc"][0]) or {}, gt.unjson(case["into"])
-            for p, v in gt.leaf_paths(g):
-                cur = d_o
-                for k in p:
-                    cur = cur.get(k, None) if isinstance(cur, dict) else None
-                    if cur is None:
-                        break
-                else:
-                    if not isinstance(cur, dict) and cur != v:
-                        return "F-C11b"
+                if idx in differ and not (has_data and opname not in names and not obs["lo"][idx]):
+                    return None
+            lazy_loaded = True
+            differ = []
+        if differ:
+            return None
+        if lazy_loaded:
+            return "F-C11c"
+        if into_overrides:
+            return "F-C11b"
         return None
 
     def shrink_candidates(self, case):
@@ -477,17 +552,21 @@ class C11(Prop):
         def body(c):
             pass
         for _ in range(n):
-            sch = cc.schema(rng, depth=3, width=3)
-            root = Collection("root")
-            sub = Collection("sub")
-            sub.add_task(Task(body, name="t"))
+            sch = cc.schema(rng, depth=rng.choice([2, 3, 4]), width=3, kinds="nbislt")
+            # root -> sub -> deep, each with its own configuration; default tasks so that the
+            # collection names themselves ("sub", "sub.deep") are task paths too
+            root, sub, deep = Collection("root"), Collection("sub"), Collection("deep")
+            deep.add_task(Task(body, name="t"), default=True)
+            sub.add_task(Task(body, name="t"), default=True)
+            sub.add_collection(deep)
             root.add_task(Task(body, name="top"))
             root.add_collection(sub)
-            c_root = cc.instance(rng, sch, 0.7)
-            c_sub = cc.instance(rng, sch, 0.7)
-            root.configure(copy.deepcopy(c_root))
-            sub.configure(copy.deepcopy(c_sub))
-            path = rng.choice([None, "top", "sub.t"])
+            handed_in = {}
+            for name, coll in (("root", root), ("sub", sub), ("deep", deep)):
+                data = cc.instance(rng, sch, 0.7)
+                handed_in[name] = (data, copy.deepcopy(data))
+                coll.configure(data)              # the caller keeps ``data``
+            path = rng.choice([None, "top", "sub.t", "sub", "sub.deep.t", "sub.deep"])
             before = copy.deepcopy(root.configuration(path))
             handed = root.configuration(path)
             snap = copy.deepcopy(handed)
@@ -500,31 +579,49 @@ class C11(Prop):
                 g = Gen(rng)
                 g.sch = sch
                 ops = [g.path_op() for _ in range(rng.randint(1, 8))]
+                ops = [o for o in ops if o[0] not in ("update_proxy",)]
                 for op in ops:
-                    inner = op
-                    if inner[0] == "setdefault" and inner[4] is None:
-                        continue
                     cfg, _ = s.try_op(cfg, op, rng)
+                # in-place edits of list leaves read through the config
+                for pth, v in list(gt.leaf_paths(gt.deep_view(cfg))):
+                    if isinstance(v, list) and rng.random() < 0.5:
+                        cur = cfg
+                        for k in pth[:-1]:
+                            cur = cur[k]
+                        cur[pth[-1]].append("SCRIBBLE")
                 res["evaluations"] += 1
+                what = None
                 if handed != snap:
-                    res["failures"].append({"case": {"root": c_root, "sub": c_sub, "path": path, "ops": ops},
-                                            "what": "mapping handed out by configuration(%r) changed by Config "
-                                                    "operations: %r -> %r" % (path, snap, handed)})
+                    what = "mapping handed out by configuration(%r) changed by Config operations: %r -> %r" \
+                        % (path, snap, handed)
+                for name, (data, dsnap) in handed_in.items():
+                    if data != dsnap:
+                        what = "data handed to Collection(%s).configure() changed: %r -> %r" % (name, dsnap, data)
+                if root.configuration(path) != before:
+                    what = "collection configuration changed by Config operations"
+                if what:
+                    res["failures"].append({"case": {"path": path, "ops": ops}, "what": what})
                     break
-                # mutate what was handed out, re-read the collection
+
+                # mutate what was handed out / handed in, re-read the collection
                 def scribble(d):
                     for k in list(d):
                         if isinstance(d[k], dict):
                             scribble(d[k])
+                        elif isinstance(d[k], list):
+                            d[k].append("SCRIBBLE")
                         else:
                             d[k] = "SCRIBBLE"
                     d["__new__"] = 1
                 scribble(handed)
+                for data, _ in handed_in.values():
+                    scribble(data)
                 again = root.configuration(path)
                 if again != before:
-                    res["failures"].append({"case": {"root": c_root, "sub": c_sub, "path": path},
-                                            "what": "mutating the mapping returned by configuration(%r) changed "
-                                                    "the collection: %r -> %r" % (path, before, again)})
+                    res["failures"].append({"case": {"path": path},
+                                            "what": "mutating the mapping returned by configuration(%r) (or the data "
+                                                    "given to configure()) changed the collection: %r -> %r"
+                                                    % (path, before, again)})
                     break
             finally:
                 s.close()
